@@ -481,7 +481,49 @@ def r14_gauges_released_on_every_exit(ctx):
                    "every path through the function passes the decrement" if ok else
                    "the decrement of an in-progress counter is skipped by an early exit (a `?` before it): every failed attempt — a bad TLS handshake, a wrong preamble, which any stranger can produce — leaks one slot, and "
                    "once the limit is reached every new connection is refused, including those of legitimate peers", path=None if ok else render_path(body, p))
-    ctx.ob("R20.14", "crate:in-progress-counters", True, "", "%d decrement sites of in-progress counters examined" % n, nontrivial=False)
+    # the boolean form: a flag raised and lowered by the same function ("in progress", "busy") is lowered on every way out
+    m = 0
+    for key, body in ctx.P.scan():
+        if key.startswith(("anytls_",)) or "Drop>::drop" in key:
+            continue
+        o = None
+        sets, resets = {}, {}
+        for c in body.calls():
+            am = atomic_method(c)
+            if am not in ("store", "swap", "compare_exchange", "compare_exchange_weak", "fetch_or", "fetch_and") or not c.args:
+                continue
+            o = o or ctx.origins(body)
+            fld = var_name(o.of_operand(c.args[0])) or fmt(o.of_operand(c.args[0]))[:40]
+            val = o.of_operand(c.args[2] if am.startswith("compare_exchange") and len(c.args) > 2 else c.args[1]) if len(c.args) > 1 else None
+            v = const_value(val)
+            if v == 1:
+                sets.setdefault(fld, []).append(c)
+            elif v == 0 and am in ("store", "swap", "fetch_and"):
+                resets.setdefault(fld, []).append(c)
+        for fld in sets:
+            if fld not in resets:
+                continue
+            cfg = ctx.cfg(body)
+            m += 1
+            rets = body.return_blocks()
+            starts = []
+            for c in sets[fld]:
+                starts += cfg.succ(c.bb)
+            ok, p = cfg.must_pass(starts, rets, via_blocks=[c.bb for c in resets[fld]])
+            # leaving because the flag was already up (somebody else is at work) is not an exit that owes a reset
+            if not ok:
+                conds = ctx.conds(body)
+                busy = []
+                for cd in conds.all():
+                    if cd.kind in ("bool", "variant") and any(isinstance(s_, tuple) and s_ and s_[0] == "call" and s_[2] in {c.bb for c in sets[fld]} for s_ in subterms(cd.term)):
+                        busy += cd.edges_for(True) + cd.edges_for("Err")
+                if busy:
+                    ok, p = cfg.must_pass(starts, rets, via_blocks=[c.bb for c in resets[fld]] + [e[1] for e in busy])
+            ctx.ob("R20.14", "%s|in-progress-flag-lowered-on-every-exit:%s" % (ctx.P.owner(key), str(fld).split(".")[-1]), ok, sets[fld][0].site,
+                   "every path from raising `%s` to the end of the function lowers it again" % fld if ok else
+                   "`%s` is raised and lowered by this function, but an early exit (a `?`, an error return) leaves it raised: after one failed run every later call finds the work 'already in progress' and does nothing — "
+                   "while reporting success" % fld, path=None if ok else render_path(body, p))
+    ctx.ob("R20.14", "crate:in-progress-counters", True, "", "%d decrement sites of in-progress counters and %d raise/lower flag pairs examined" % (n, m), nontrivial=False)
 
 
 def r8_inventory(ctx, reach):
